@@ -22,6 +22,7 @@ mod cases;
 #[path = "c07/walker.rs"]
 #[allow(dead_code)]
 mod walker;
+pub mod c15_rec;
 
 // ------------------------------------------------------------------------------------------ helpers
 
